@@ -610,9 +610,12 @@ func (r *run) c14Limit(msgs []frameMsg, reuse bool) {
 	for i, fm := range msgs {
 		frame := wire.BuildFrame(fm.segs)
 		F := len(frame)
-		for _, d := range []int{-24, -16, -8, 0, 8} {
+		// (the last three are limits smaller than a segment table: 1, 4 and 7 bytes, which no frame fits)
+		for _, d := range []int{-24, -16, -8, 0, 8, 1 - F, 4 - F, 7 - F} {
 			lim := F + d
-			if lim < 8 {
+			if lim < 8 && d > -F {
+				s.Probe("maxsize_below_one_word")
+			} else if lim < 8 {
 				continue
 			}
 			r.cases++
@@ -682,7 +685,7 @@ func (r *run) c14Hostile() {
 	}
 	tail := make([]byte, 8*s.Choice("tailwords", 8))
 	stream := append(append([]byte(nil), hdr...), tail...)
-	maxSizes := []uint64{64, 1024, 1 << 20, 1 << 40}
+	maxSizes := []uint64{64, 1024, 1 << 20, 1 << 40, 1, 7}
 	maxSize := maxSizes[s.Choice("hmax", len(maxSizes))]
 	reuse := s.Choice("reuse", 2) == 1
 	r.desc = append(r.desc, fmt.Sprintf("hostile header count-1=%d, %d size words, MaxMessageSize=%d", cnt, nsz, maxSize))
